@@ -8,6 +8,7 @@ The model (`Model/Ack.lean`) describes `ack.rs` / `event.rs` after the three `fi
 `scd_len < 4`).
 -/
 import CamVerif.Proofs.C08
+import CamVerif.Proofs.C08Growth
 import CamVerif.Gen.AckTables
 namespace CamVerif.C08
 open CamVerif CamVerif.Ack
@@ -572,5 +573,151 @@ example : EventsAt [0x55, 0x33, 0x56, 0x45, 0, 0x40, 0, 0x0c, 14, 0, 1, 0,
 
 /-- a truncated header is an error, not a panic -/
 example : AckPacket.parse .dev [0x55, 0x33, 0x56, 0x43, 0, 0] = .err .bufferIo := by decide
+
+/-! ## 5. The event walk is exactly the reference relation (growth round) -/
+
+/-- **event_walk_exact**: for every buffer with a well-formed event header, EITHER the
+`scd_len` SCD bytes from offset 12 are tiled by a reference event list `vs` — then `vs` is the
+ONLY such list (`EventsAt` is a function of the bytes), it occupies exactly `scd_len` bytes
+(Σ (12 + data) = scd_len), the events lie back to back from offset 12, every data slice lies
+inside `[24, 12 + scd_len]`, and `EventPacket::parse` returns exactly these events — OR no
+reference list exists and `EventPacket::parse` returns an error.  Nothing else can happen. -/
+theorem event_walk_exact (bs : Bytes)
+    (hlen : HEADER_LEN ≤ bs.length) (hmagic : magicOf bs = EVENT_MAGIC)
+    (hcmd : commandIdOf bs = Spec.GenCPAck.EVENT_COMMAND_ID) :
+    (∃ vs, EventsAt bs 12 (scdLenOf bs) vs ∧
+      (∀ vs', EventsAt bs 12 (scdLenOf bs) vs' → vs' = vs) ∧
+      consumed vs = scdLenOf bs ∧ TilesFrom 12 vs ∧
+      (∀ v ∈ vs, 24 ≤ v.dataOff ∧ v.dataOff + v.dataLen ≤ 12 + scdLenOf bs ∧
+        v.dataOff + v.dataLen ≤ bs.length) ∧
+      EventPacket.parse bs =
+        .ok ⟨⟨uintAt bs 4 2, commandIdOf bs, scdLenOf bs, requestIdOf bs⟩, vs.map (ofView bs)⟩) ∨
+    ((¬ ∃ vs, EventsAt bs 12 (scdLenOf bs) vs) ∧ ∃ e, EventPacket.parse bs = .err e) := by
+  by_cases hex : ∃ vs, EventsAt bs 12 (scdLenOf bs) vs
+  · left
+    obtain ⟨vs, hvs⟩ := hex
+    obtain ⟨t1, t2, _⟩ := EventsAt.tiles hvs
+    refine ⟨vs, hvs, fun vs' h' => EventsAt.unique h' hvs, t1, t2, ?_,
+      event_accepts_conforming bs vs hlen hmagic hcmd hvs⟩
+    intro v hv
+    have := EventsAt.bounds hvs v hv
+    omega
+  · right
+    refine ⟨hex, ?_⟩
+    cases hres : EventPacket.parse bs with
+    | ok pk =>
+      obtain ⟨_, _, _, _, _, h6, _⟩ := event_parse_faithful bs pk hres
+      exact absurd ⟨_, h6⟩ hex
+    | err e => exact ⟨e, rfl⟩
+    | panic => exact absurd hres (event_parse_total bs)
+
+/-- **event_walk_ignores_trailing**: bytes that follow the announced SCD never change an
+accepted result.  If `pre` holds the header and at least `scd_len` SCD bytes, then for every
+`x`, parsing `pre ++ x` returns the very same packet (same events, offsets and data) as
+parsing `pre`, or both are errors.  (The walk may *read* an event header past `12 + scd_len`
+when fewer than 12 bytes remain, but that always ends in an error.)  This is the
+C08-r3-seed2 scenario: a zero-size entry after sized ones takes the REMAINING SCD, never the
+trailing bytes of a larger receive buffer. -/
+theorem event_walk_ignores_trailing (pre x : Bytes)
+    (hlen : HEADER_LEN + scdLenOf pre ≤ pre.length) :
+    (∃ pk, EventPacket.parse pre = .ok pk ∧ EventPacket.parse (pre ++ x) = .ok pk) ∨
+    ((∃ e, EventPacket.parse pre = .err e) ∧ ∃ e, EventPacket.parse (pre ++ x) = .err e) := by
+  simp only [HEADER_LEN, scdLenOf] at hlen
+  have h12 : 12 ≤ pre.length := by omega
+  have h12' : 12 ≤ (pre ++ x).length := by simp only [List.length_append]; omega
+  have e0 := uintAt_append_left pre x 0 4 (by omega)
+  have e4 := uintAt_append_left pre x 4 2 (by omega)
+  have e6 := uintAt_append_left pre x 6 2 (by omega)
+  have e8 := uintAt_append_left pre x 8 2 (by omega)
+  have e10 := uintAt_append_left pre x 10 2 (by omega)
+  rw [event_parse_eq pre h12, event_parse_eq (pre ++ x) h12']
+  simp only [eventFormula, e0, e4, e6, e8, e10]
+  split
+  · exact Or.inr ⟨⟨_, rfl⟩, ⟨_, rfl⟩⟩
+  · split
+    · exact Or.inr ⟨⟨_, rfl⟩, ⟨_, rfl⟩⟩
+    · rcases eventLoop_exact pre 12 (uintAt pre 8 2) (uintAt pre 8 2 + 1) (by omega) with
+        ⟨vs, hvs, hok⟩ | ⟨hno, herr⟩
+      · left
+        have hvs' := (eventsAt_append pre x (by omega)).mp hvs
+        have hok' := eventLoop_complete (pre ++ x) 12 _ vs hvs' (uintAt pre 8 2 + 1) (by omega)
+        rw [map_ofView_append pre x hvs] at hok'
+        rw [hok, hok']
+        exact ⟨_, rfl, rfl⟩
+      · right
+        have hno' : ¬ ∃ vs, EventsAt (pre ++ x) 12 (uintAt pre 8 2) vs := by
+          rintro ⟨vs, hvs⟩
+          exact hno ⟨vs, (eventsAt_append pre x (by omega)).mpr hvs⟩
+        rcases eventLoop_exact (pre ++ x) 12 (uintAt pre 8 2) (uintAt pre 8 2 + 1) (by omega) with
+          ⟨vs, hvs, _⟩ | ⟨_, herr'⟩
+        · exact absurd ⟨vs, hvs⟩ hno'
+        · obtain ⟨e, he⟩ := herr
+          obtain ⟨e', he'⟩ := herr'
+          rw [he, he']
+          exact ⟨⟨e, rfl⟩, ⟨e', rfl⟩⟩
+
+private theorem expectedEvents_last (off : Nat) (evs : List Event) (e : Event) :
+    (expectedEvents off evs (some e)).getLast? =
+      some ⟨0, e.id, e.timestamp, off + (encodeEvents evs none).length + 12, e.data⟩ ∧
+    (expectedEvents off evs (some e)).length = evs.length + 1 := by
+  induction evs generalizing off with
+  | nil => simp [expectedEvents, encodeEvents]
+  | cons a as ih =>
+    obtain ⟨ih1, ih2⟩ := ih (off + (12 + a.data.length))
+    have hoff : off + (12 + a.data.length) + (encodeEvents as none).length + 12 =
+        off + (encodeEvents (a :: as) none).length + 12 := by
+      simp only [encodeEvents, List.length_append, encodeEvent_length]; omega
+    rw [hoff] at ih1
+    constructor
+    · rw [expectedEvents]
+      cases htl : expectedEvents (off + (12 + a.data.length)) as (some e) with
+      | nil => rw [htl] at ih2; simp at ih2
+      | cons b bs =>
+        rw [htl] at ih1
+        rw [List.getLast?_cons_cons]
+        exact ih1
+    · rw [expectedEvents, List.length_cons, ih2, List.length_cons]
+
+/-- **event_trailing_single** (corollary, the C08-r3-seed2 shape): `k` sized events followed
+by a zero-size ("rest of SCD") event `e`, encoded by the reference encoder and followed by ANY
+trailing bytes `x` of a larger receive buffer: the packet is accepted, `k + 1` events are
+returned, and the last one has size field 0, `e`'s id and timestamp, and exactly `e`'s data,
+located right after the `k` sized events — never bytes of `x`. -/
+theorem event_trailing_single (flag req : Nat) (evs : List Event) (e : Event) (x : Bytes)
+    (hflag : flag < 2 ^ 16) (hreq : req < 2 ^ 16)
+    (hlen : (encodeEvents evs (some e)).length < 2 ^ 16)
+    (hevs : ∀ a ∈ evs, EventOk a) (he : EventOk e) :
+    EventPacket.parse (encodeEventPacket flag req (encodeEvents evs (some e)) ++ x) =
+      .ok ⟨⟨flag, Ack.EVENT_COMMAND_ID, (encodeEvents evs (some e)).length, req⟩,
+        expectedEvents 12 evs (some e)⟩ ∧
+    (expectedEvents 12 evs (some e)).length = evs.length + 1 ∧
+    (expectedEvents 12 evs (some e)).getLast? =
+      some ⟨0, e.id, e.timestamp, 12 + (encodeEvents evs none).length + 12, e.data⟩ := by
+  have hacc := event_accepts_encoded flag req evs (some e) hflag hreq hlen hevs
+    (fun a ha => by injection ha with ha; rw [← ha]; exact he)
+  obtain ⟨f1, _, _, _, f5, _⟩ :=
+    encodeEventPacket_fields flag req (encodeEvents evs (some e)) hflag hreq hlen
+  have htr := event_walk_ignores_trailing
+    (encodeEventPacket flag req (encodeEvents evs (some e))) x
+    (by simp only [HEADER_LEN, scdLenOf, f5, f1]; omega)
+  obtain ⟨l1, l2⟩ := expectedEvents_last 12 evs e
+  refine ⟨?_, l2, l1⟩
+  rcases htr with ⟨pk, hp, hp'⟩ | ⟨⟨e', he'⟩, _⟩
+  · have hpk := Res.ok.inj (hp.symm.trans hacc)
+    rw [hp', hpk]
+  · have hbad := he'.symm.trans hacc
+    cases hbad
+
+/-- non-vacuity: two sized events, then a zero-size one, then 3 stray bytes -/
+example : EventPacket.parse
+    (encodeEventPacket 0x4000 1 (encodeEvents [⟨0x10, 7, [0x12, 0x34]⟩, ⟨0x11, 1, []⟩]
+      (some ⟨0x12, 9, [0xAA]⟩)) ++ [0xEE, 0xEE, 0xEE]) =
+    .ok ⟨⟨0x4000, 0x0c00, 39, 1⟩,
+      [⟨14, 0x10, 7, 24, [0x12, 0x34]⟩, ⟨12, 0x11, 1, 38, []⟩, ⟨0, 0x12, 9, 50, [0xAA]⟩]⟩ := by
+  decide
+
+example : consumed [⟨14, 0x10, 7, 24, 2⟩, ⟨12, 0x11, 1, 38, 0⟩, ⟨0, 0x12, 9, 50, 1⟩] = 39 ∧
+    TilesFrom 12 [⟨14, 0x10, 7, 24, 2⟩, ⟨12, 0x11, 1, 38, 0⟩, ⟨0, 0x12, 9, 50, 1⟩] := by
+  simp [consumed, TilesFrom]
 
 end CamVerif.C08
